@@ -282,7 +282,7 @@ def register_line(reg):
                      returns=Arr('bool'), requires=req,
                      ensures=lambda c, r: [('length', r.n == c.inds.n),
                                            ('cells', forall('int', lambda k: Implies(And(k >= 0, k < c.inds.n), cell_ok(c, r, k))))],
-                     loops={0: Loop(var='i', invariant=inv_i, keep_using={'done': ['inv:done', 'inv:this', 'inv:range'],
+                     loops={0: Loop(var='i', invariant=inv_i, keep_using={'done': ['!strict', 'inv:done', 'inv:this', 'inv:range', 'exit:'],
                                                                         'todo': ['inv:todo', 'inv:range']}),
                             1: Loop(var='k', invariant=inv_k),
                             2: Loop(var='m', invariant=inv_m, hints=seg_steps,
